@@ -587,6 +587,25 @@ func genMisc(r *rng, idx int) srvCase {
 	c.evs = append(c.evs, sev{kind: "pkt", src: src, raw: []byte("d1:eli201e1:xe1:t2:aa1:y1:ee")})
 	c.evs = append(c.evs, sev{kind: "pkt", src: src, raw: []byte("d1:e3:bad1:t2:aa1:y1:ee")})
 	c.evs = append(c.evs, sev{kind: "pkt", src: src, raw: []byte("d1:ad2:id20:aaaaaaaaaaaaaaaaaaaa2:roi1ee1:q4:ping1:t2:aa1:y1:qe")})
+	// decoder quirks of the bencode library on live packets (DESIGN Appendix A): byte-level model and
+	// server model are both exercised on them
+	for _, raw := range []string{
+		"d1:ad2:idl20:aaaaaaaaaaaaaaaaaaaaee1:q4:ping1:t2:aa1:y1:qe",                  // id as singleton list
+		"d1:ad2:id20:aaaaaaaaaaaaaaaaaaaae1:q4:ping2:ro1:x1:t2:aa1:y1:qe",              // ro = any non-"0" text is true
+		"d1:ad2:id25:aaaaaaaaaaaaaaaaaaaaXXXXXe1:q4:ping1:t2:aa1:y1:qe",                // long id truncated to 20
+		"d1:ad2:id19:aaaaaaaaaaaaaaaaaaae1:q4:ping1:t2:aa1:y1:qe",                      // short id: rejected
+		"d1:ad2:id20:aaaaaaaaaaaaaaaaaaaae1:q4:ping1:ti5e1:y1:qe",                      // t of wrong type: rejected
+		"d1:ad2:id20:aaaaaaaaaaaaaaaaaaaae1:q4:ping1:t2:aa1:xd1:b0:1:a0:e1:y1:qe",      // unknown key with unsorted dict: rejected
+		"d1:ad2:id20:aaaaaaaaaaaaaaaaaaaae1:q4:ping1:t2:aa1:xd1:a0:1:b0:e1:y1:qe",      // unknown key, sorted: accepted
+		"d1:y1:q1:t2:aa1:q4:ping1:ad2:id20:aaaaaaaaaaaaaaaaaaaaee",                      // unsorted struct keys accepted
+		"d1:ad2:id20:aaaaaaaaaaaaaaaaaaaa4:portli7ee9:info_hash20:bbbbbbbbbbbbbbbbbbbbe1:q9:get_peers1:t2:aa1:y1:qe",
+		"d1:ad2:id20:aaaaaaaaaaaaaaaaaaaa4:want2:n4e1:q9:find_node1:t2:aa1:y1:qe",      // want as bare string: type error
+		"d1:ad2:id20:aaaaaaaaaaaaaaaaaaaa6:target20:cccccccccccccccccccc4:wantl2:n42:n6ee1:q9:find_node1:t2:aa1:y1:qe",
+		"ld1:ad2:id20:aaaaaaaaaaaaaaaaaaaae1:q4:ping1:t2:aa1:y1:qee",                   // list around the dict: fails the 'd' pre-check
+		"d1:q4:ping1:t2:aa1:y1:q1:ad2:id20:aaaaaaaaaaaaaaaaaaaaed2:id20:bbbbbbbbbbbbbbbbbbbbee", // trailing value
+	} {
+		c.evs = append(c.evs, sev{kind: "pkt", src: randAddr(r, 0), raw: []byte(raw)})
+	}
 	c.evs = append(c.evs, ping(randAddr(r, 1)))
 	zoned := udp([]byte{0xfe, 0x80, 0, 0, 0, 0, 0, 0, 0, 0, 0, 0, 0, 0, 0, byte(1 + r.intn(200))}, 1+r.intn(65535))
 	zoned.Zone = "eth1"
